@@ -45,6 +45,15 @@ impl<'a> Args<'a> {
 			None
 		}
 	}
+	fn opt_u64(&mut self) -> Option<u64> {
+		let d = self.u64();
+		let v = self.u64();
+		if d != 0 {
+			Some(v)
+		} else {
+			None
+		}
+	}
 	fn opt_u32(&mut self) -> Option<u32> {
 		let d = self.u64();
 		let v = self.u32();
@@ -294,6 +303,34 @@ fn dispatch(name: &str, a: &mut Args) -> String {
 			}
 		},
 		"update_channel_probe" => update_channel_probe(a),
+		"construct_info_bytes" => {
+			let (min, method, delta, time, cltv) = (a.opt_u64(), a.u8(), a.u32(), a.u64(), a.opt_u16());
+			match lightning::ln::inbound_payment::verif_hooks::construct_info_bytes(min, method, delta, time, cltv) {
+				Ok(b) => format!("0 {}", b.iter().map(|x| x.to_string()).collect::<Vec<_>>().join(" ")),
+				Err(()) => format!("1{}", " 0".repeat(16)),
+			}
+		},
+		"inbound_roundtrip" => {
+			// real create_from_hash (user payment hash methods) followed by the real verify
+			use lightning::ln::inbound_payment::{create_from_hash, ExpandedKey};
+			use lightning::types::payment::PaymentHash;
+			let (min, delta, time, cltv, total, seen) = (a.opt_u64(), a.u32(), a.u64(), a.opt_u16(), a.u64(), a.u64());
+			let keys = ExpandedKey::new([1; 32]);
+			let hash = PaymentHash([2; 32]);
+			struct Ent;
+			impl lightning::sign::EntropySource for Ent {
+				fn get_secure_random_bytes(&self) -> [u8; 32] {
+					[9; 32]
+				}
+			}
+			match create_from_hash(&keys, min, hash, delta, &Ent, time, cltv, None) {
+				Err(()) => "1 0 0 0".to_string(),
+				Ok((secret, _)) => match lightning::ln::inbound_payment::verif_hooks::verify(hash, secret, total, seen, &keys) {
+					Ok((_, c)) => format!("0 1 {} {}", c.is_some() as u8, c.unwrap_or(0)),
+					Err(()) => "0 0 0 0".to_string(),
+				},
+			}
+		},
 		_ => return format!("error unknown function {}", name),
 	}
 }
